@@ -37,6 +37,10 @@ pub broadcast axiom fn axiom_string_from_str(v: &str)
 pub broadcast axiom fn axiom_str_len_bound(s: &str)
     ensures #[trigger] s.spec_bytes().len() <= isize::MAX;
 
+// a str holds at most isize::MAX bytes and every character takes at least one byte
+pub broadcast axiom fn axiom_str_chars_bound(s: &str)
+    ensures #[trigger] s@.len() <= isize::MAX;
+
 pub broadcast axiom fn axiom_cow_from_string<'a>(v: String)
     ensures (#[trigger] <Cow<'a, str> as FromSpec<String>>::from_spec(v))@ == v@;
 
